@@ -23,6 +23,14 @@ Ltac split_matches :=
          | |- context [if ?c then _ else _] => destruct c eqn:?
          end.
 
+(* a leaf of the decision tree: either both sides are the same value, or the
+   branch is a run-time panic of the Go code (slice out of range) whose
+   condition contradicts the guards on the path *)
+Ltac close_leaf :=
+  first [ reflexivity
+        | exfalso; lia
+        | exfalso; match goal with H : context [rune_count ?n] |- _ => pose proof (rune_count_le n) end; lia ].
+
 (* the structs have exactly the modelled fields: a String() cannot print a
    remembered copy of a value from a field the model does not know *)
 Lemma gen_enr_struct_ok : gen_enr_struct = enr_struct_fields.
@@ -37,14 +45,14 @@ Proof. reflexivity. Qed.
 Lemma gen_enr_string_ok i : run_func gen_enr_string (enr_rec i) [] = Some [VBy (enr_string i)].
 Proof.
   destruct i as [tx rdfi chk acct ident name code].
-  sym_eval. split_matches; first [reflexivity | exfalso; pose proof (rune_count_le name); lia].
+  sym_eval. split_matches; close_leaf.
 Qed.
 
 Lemma gen_dne_string_ok i : run_func gen_dne_string (dne_rec i) [] = Some [VBy (dne_string i)].
 Proof. destruct i as [d s a]. sym_eval. reflexivity. Qed.
 
-Lemma gen_enr_parse_ok pri :
-  run_func gen_enr_parse VNil [addenda_rec pri] = Some (enr_parse_result pri).
+Lemma gen_enr_parse_ok pri seq eseq :
+  run_func gen_enr_parse VNil [addenda_rec pri seq eseq] = Some (enr_parse_result pri).
 Proof.
   unfold enr_parse_result, parse_enr. sym_eval.
   destruct (split_star (trim_bslash pri)) as [|p0 [|p1 [|p2 [|p3 [|p4 [|p5 [|p6 [|p7 [|p8 r]]]]]]]]];
@@ -52,14 +60,73 @@ Proof.
   split_matches; reflexivity.
 Qed.
 
-Lemma gen_dne_parse_ok pri :
-  run_func gen_dne_parse VNil [addenda_rec pri] = Some (dne_parse_result pri).
+Lemma gen_dne_parse_ok pri seq eseq :
+  run_func gen_dne_parse VNil [addenda_rec pri seq eseq] = Some (dne_parse_result pri).
 Proof.
   unfold dne_parse_result, parse_dne. sym_eval.
   destruct (split_star (trim_bslash pri)) as [|p0 [|p1 [|p2 [|p3 [|p4 [|p5 [|p6 r]]]]]]];
     cbn [length nth_error Nat.eqb]; try reflexivity.
   split_matches; reflexivity.
 Qed.
+
+(* describe.dumpAddenda05 with its callees: the regenerated body of dumpAddenda05,
+   calling the regenerated bodies of the parse functions and of String(), writes
+   - for every payment string, every flag set - the header line and the row whose
+   first cell is the model's [describe_enr] / [describe_dne].  This is the whole
+   pipeline parse -> mask the parsed fields -> String(), taken from the source of
+   this run: masking AFTER String(), a dropped mask, a String() that reads
+   something else all change the regenerated syntax and break this proof. *)
+Definition pay_funcs : list (string * pfunc) :=
+  [("ach.ParseENRPaymentInformation", gen_enr_parse); ("ach.ParseDNEPaymentInformation", gen_dne_parse);
+   ("ENRPaymentInformation.String", gen_enr_string); ("DNEPaymentInformation.String", gen_dne_string)]%string.
+
+Definition dump_args (batch : string) (names accts corr : bool) (pri seq eseq : bytes) : list pval :=
+  [VTag "tabwriter.Writer"; VTag batch; addenda_rec pri seq eseq; opts_rec names accts corr]%string.
+
+Lemma gen_dump_enr_ok names accts corr pri seq eseq :
+  run_proc (ext_table pay_funcs) gen_dump_addenda05 (dump_args "BatchENR" names accts corr pri seq eseq)
+  = Some [VBy (addenda05_lines (describe_enr names accts pri) seq eseq)].
+Proof.
+  unfold describe_enr, parse_enr, dump_args. sym_eval.
+  destruct (split_star (trim_bslash pri)) as [|p0 [|p1 [|p2 [|p3 [|p4 [|p5 [|p6 [|p7 [|p8 r]]]]]]]]];
+    cbn [length nth_error Nat.eqb]; try reflexivity.
+  split_matches; close_leaf.
+Qed.
+
+Lemma gen_dump_dne_ok names accts corr pri seq eseq :
+  run_proc (ext_table pay_funcs) gen_dump_addenda05 (dump_args "BatchDNE" names accts corr pri seq eseq)
+  = Some [VBy (addenda05_lines (describe_dne names accts pri) seq eseq)].
+Proof.
+  unfold describe_dne, parse_dne, dump_args. sym_eval.
+  destruct (split_star (trim_bslash pri)) as [|p0 [|p1 [|p2 [|p3 [|p4 [|p5 [|p6 r]]]]]]];
+    cbn [length nth_error Nat.eqb]; try reflexivity.
+  split_matches; close_leaf.
+Qed.
+
+(* any other batch type: the raw field (free text, not protected) *)
+Lemma gen_dump_other_ok names accts corr pri seq eseq :
+  run_proc (ext_table pay_funcs) gen_dump_addenda05 (dump_args "Batch" names accts corr pri seq eseq)
+  = Some [VBy (addenda05_lines (alphaField pri 80) seq eseq)].
+Proof. unfold dump_args. sym_eval. reflexivity. Qed.
+
+(* the statement about the name, read off the regenerated source *)
+Lemma gen_dump_enr_name_hidden pri i accts corr seq eseq w :
+  parse_enr pri = Some i -> nospace w -> nostar w = true -> (3 <= length w)%nat ->
+  exists cell,
+    run_proc (ext_table pay_funcs) gen_dump_addenda05 (dump_args "BatchENR" true accts corr pri seq eseq)
+      = Some [VBy (addenda05_lines cell seq eseq)] /\
+    (substring w cell -> exists f, In f (enr_beside_name (mask_enr true accts i)) /\ substring w f).
+Proof.
+  intros Hp Hs Hst Hl. exists (describe_enr true accts pri). split; [apply gen_dump_enr_ok|].
+  now apply enr_name_hidden.
+Qed.
+
+(* no other function of describe/file.go touches the payment-information
+   functions or an Addenda05's payment related information (dumpAddenda17 prints
+   the IAT Addenda17 field of the same name) *)
+Lemma gen_dump_other_uses_ok :
+  gen_dump_other_uses = ["dumpAddenda17:PaymentRelatedInformationField"]%string.
+Proof. reflexivity. Qed.
 
 (* ---------- non-vacuity ---------- *)
 
